@@ -235,7 +235,7 @@ func (w *c38World) explore(depth int) {
 						continue
 					}
 					if dm == nil {
-						dm = w.spec.bottom()
+						dm = nm // redundant delta of an update without effect: at most what its sender knows
 					}
 					// ship the delta to every subset of the other replicas
 					var did int32 = -1
